@@ -290,9 +290,18 @@ class Gen:
             s = self.string(active_plain=True)
             (self.must_have if active else self.must_not).append(s)
             line += "/* c */" + s
-        if r.random() < 0.05 and self.macros:
+        if r.random() < 0.1 and self.macros:
             self.features.add("word-directly-before-string")
-            line += " " + r.choice(sorted(self.macros)) + '"w"'
+            # also strings that begin like an argument list: a function-like name glued to such a string is still no call
+            fl = sorted(n for n in self.macros if self.macros[n][0] is not None)
+            name = r.choice(fl) if fl and r.random() < 0.6 else r.choice(sorted(self.macros))
+            st = r.choice(['"w"', '"(c) w%d"', '"(1,2) tail%d"', '"()%d"', '"(x%d"', '"(a)(b)%d"'])
+            if "%d" in st:
+                st = st % self.fresh()
+            if st != '"w"':
+                self.features.add("name-glued-to-string-that-begins-like-arguments")
+                (self.must_have if active else self.must_not).append(st)
+            line += " " + name + st
         if r.random() < 0.04:
             self.features.add("continuation-inside-string")
             s = '"S%d a\\%sb"' % (self.fresh(), self.nl)
